@@ -1,14 +1,12 @@
 (* C03 — the Memfs namespace stays a well-formed tree after any history, even failed calls.
    WF (Memfs/Wf.v) is the statement's conjunction over the three indexes of the mirror state.
-   Proved here: WF holds initially and is preserved by every operation of the alphabet except
-   move_p (copy, chmod, chown and mkfile_m included), for all arguments and whether the call succeeds
-   or fails, hence after every history without move_p; the boolean checker wf_b
-   (extracted and evaluated on every state snapshot the correspondence runs produce, including the
-   states after move_p) is sound.  PARTIAL: WF-preservation of the move_p worklist loop is not yet
-   a theorem (see DESIGN §7 C03); it is covered by wf_b on every explored state. *)
+   Proved here: WF holds initially and is preserved by EVERY operation of the alphabet - move_p with its
+   relocation loop (Memfs/WfMove.v), copy, chmod, chown and mkfile_m included - for all states and arguments
+   and whether the call succeeds or fails, hence after every history; the boolean checker wf_b (extracted
+   and evaluated on every state snapshot the correspondence runs produce) is sound. *)
 From stdpp Require Import gmap.
 From Coq Require Import NArith.
-From RV Require Import Base.Str Path.Expand Memfs.State Memfs.Ops Memfs.Step Memfs.Wf Memfs.WfMore Memfs.WfB.
+From RV Require Import Base.Str Path.Expand Memfs.State Memfs.Ops Memfs.Step Memfs.Wf Memfs.WfMore Memfs.WfMove Memfs.WfB.
 
 Theorem C03_wf_init : WF mfs_init.
 Proof. exact wf_init. Qed.
@@ -28,6 +26,18 @@ Theorem C03_wf_history : forall env os m m', WF m ->
   forallb (fun o => negb (is_move_p o)) os = true -> run_ops env m os = Some m' -> WF m'.
 Proof. exact wf_history. Qed.
 Print Assumptions C03_wf_history.
+
+Theorem C03_move_p_wf : forall env m s d m' r, WF m -> move_op env m s d = Done (m', r) -> WF m'.
+Proof. exact move_op_wf. Qed.
+Print Assumptions C03_move_p_wf.
+
+Theorem C03_wf_step : forall env m o m' r, WF m -> step env m o = Done (m', r) -> WF m'.
+Proof. exact wf_step. Qed.
+Print Assumptions C03_wf_step.
+
+Theorem C03_wf_all_histories : forall env os m m', WF m -> run_ops env m os = Some m' -> WF m'.
+Proof. exact wf_all_histories. Qed.
+Print Assumptions C03_wf_all_histories.
 
 Theorem C03_add_wf : forall m e, WF m -> fresh e -> WF (add m e).1.
 Proof. exact add_wf. Qed.
